@@ -250,9 +250,156 @@ def rule_word_cursor(ck, facts):
     ck.floor(R, "generated_word_cursors", n, 1)
 
 
+
+def rule_word_advance(ck, facts):
+    """a walker that rebuilds a typed value from flat words moves its cursor by the width of what it read"""
+    R = "C18.abi"
+    ck.rule(R, "in the generator, every function that is handed a type and a `&mut usize` word cursor advances the cursor, on every path on which it does not pass the cursor on, by exactly one word or by exactly the type's word size (linear form over `word_size()`, followed through casts and `saturating_sub`): a path that reads at the cursor and advances by less leaves the next field of an enclosing tuple / record to be read from inside this one")
+    lang = facts.crate(roles.LANG)
+    n = 0
+    for f in lang.fns:
+        if f.kind not in ("fn", "assoc") or "::compiler::rustgen" not in f.path:
+            continue
+        argc = f.d["argc"]
+        offs = [i for i in range(1, argc + 1) if f.local_ty(i).replace(" ", "") in ("&mutusize", "&mutu64")]
+        if len(offs) != 1 or not any("TypeNodeId" in f.local_ty(i) for i in range(1, argc + 1)):
+            continue
+        off = offs[0]
+        di = DefIndex(f)
+
+        def is_off(pl):
+            return pl[0] == off and pl[1] == ["*"]
+
+        def form(op, depth=0):
+            """linear form (a, b) = a*word_size + b of an operand, or None"""
+            if depth > 8:
+                return None
+            if op[0] == "c":
+                from ..facts import const_int
+                k = const_int(op)
+                return (0, k) if k is not None else None
+            r = di.resolve(op)
+            if r[0] == "const":
+                return form(r[1], depth + 1)
+            if r[0] == "call":
+                c = (callee(r[1]) or "")
+                last = c.split("::")[-1]
+                if last == "word_size":
+                    return (1, 0)
+                if last in ("saturating_sub", "wrapping_sub") and len(r[1][5]) == 2:
+                    x, y = form(r[1][5][0], depth + 1), form(r[1][5][1], depth + 1)
+                    if x and y and y[0] == 0:
+                        return (x[0], x[1] - y[1])
+                if last in ("from", "into", "try_from", "unwrap", "clone") and r[1][5]:
+                    return form(r[1][5][0], depth + 1)
+                return None
+            if r[0] == "rv":
+                rv = r[1][5]
+                if rv[0] == "cast":
+                    return form(rv[-1] if isinstance(rv[-1], list) and rv[-1] and rv[-1][0] in ("cp", "mv", "c") else rv[2], depth + 1)
+                if rv[0] == "bin" and rv[1] in ("add", "add_ov", "sub", "sub_ov"):
+                    x, y = form(rv[2], depth + 1), form(rv[3], depth + 1)
+                    if x and y:
+                        sg = 1 if rv[1].startswith("add") else -1
+                        return (x[0] + sg * y[0], x[1] + sg * y[1])
+                if rv[0] == "use":
+                    return form(rv[1], depth + 1)
+            if r[0] == "place" and r[1][1] and r[1][1][-1] != "*" and r[1][1][-1][0] == "f" and r[1][1][-1][1] == 0:
+                # tmp.0 of a checked add
+                return form(["cp", [r[1][0], []]], depth + 1)
+            return None
+
+        # forward data flow: block -> set of (a, b, delegated, read, unknown)
+        IN = {0: {(0, 0, False, False, False)}}
+        work = [0]
+        rets = set()
+        steps = 0
+        while work and steps < 20000:
+            steps += 1
+            b = work.pop()
+            states = set(IN[b])
+            for st in f.stmts(b):
+                if st[KIND] != "a":
+                    continue
+                rv = st[5]
+                dst = st[4]
+                new = set()
+                for (a, k, dg, rd, un) in states:
+                    if is_off(dst):
+                        # (*off) = tmp.0 / (*off) = x
+                        src = rv[1] if rv[0] == "use" else None
+                        fm = form(src) if src is not None else None
+                        # the value stored is `(*off) + X`: find X
+                        X = None
+                        if src is not None:
+                            r = di.resolve(src if not (src[0] in ("cp", "mv") and src[1][1]) else ["cp", [src[1][0], []]])
+                            if r[0] == "rv" and r[1][5][0] == "bin" and r[1][5][1] in ("add", "add_ov"):
+                                o1, o2 = r[1][5][2], r[1][5][3]
+                                if o1[0] in ("cp", "mv") and is_off(o1[1]):
+                                    X = form(o2)
+                                elif o2[0] in ("cp", "mv") and is_off(o2[1]):
+                                    X = form(o1)
+                        if X is None:
+                            new.add((a, k, dg, rd, True))
+                        else:
+                            new.add((a + X[0], k + X[1], dg, rd, un))
+                        continue
+                    if rv[0] == "ref" and is_off(rv[1]):
+                        if rv[2]:
+                            new.add((a, k, True, rd, un))
+                        else:
+                            new.add((a, k, dg, True, un))
+                        continue
+                    if rv[0] == "use" and rv[1][0] in ("cp", "mv") and is_off(rv[1][1]):
+                        new.add((a, k, dg, True, un))
+                        continue
+                    if rv[0] == "agg" and any(o[0] in ("cp", "mv") and o[1][0] == off and not o[1][1] for o in rv[2]):
+                        new.add((a, k, True, rd, un))  # captured by a closure that goes on reading
+                        continue
+                    new.add((a, k, dg, rd, un))
+                states = new
+            t = f.term(b)
+            if t[KIND] == "call":
+                for arg in t[5]:
+                    if arg[0] in ("cp", "mv") and arg[1][0] == off and not arg[1][1]:
+                        states = {(a, k, True, rd, un) for (a, k, dg, rd, un) in states}
+            if t[KIND] == "return":
+                rets |= states
+                continue
+            if len(states) > 64:
+                states = {(0, 0, False, False, True)}
+            for s2 in f.succs(b):
+                if f.is_cleanup(s2):
+                    continue
+                old = IN.get(s2, set())
+                if not states <= old:
+                    IN[s2] = old | states
+                    if len(IN[s2]) > 64:
+                        IN[s2] = {(0, 0, False, False, True)}
+                    work.append(s2)
+        if not any(a != 0 for (a, k, dg, rd, un) in rets):
+            continue  # a cursor that never moves by a word size counts operands, not words
+        n += 1
+        name = f.short.split("::")[-1]
+        bad = sorted((a, k, rd) for (a, k, dg, rd, un) in rets if not dg and not un and not ((a, k) in ((0, 1), (1, 0)) or ((a, k) == (0, 0) and not rd)))
+        unk = [x for x in rets if x[4] and not x[2]]
+        key = "word-advance|%s" % name
+        if bad:
+            a, k, rd = bad[0]
+            ck.bad(R, key, "%s has a path on which it reads at the word cursor and leaves it advanced by %s instead of by the width of the type (1 word, or word_size): whatever follows this value in an enclosing tuple or record — the next field, the next argument — is then read from inside it, so the generated program compiles and computes with the wrong words" % (f.short, ("%d*word_size%+d" % (a, k)) if a else ("%d" % k)), f.where())
+        else:
+            ck.ok(R, key, {"walker": name, "advances": sorted({("%d*ws%+d" % (a, k)) for (a, k, dg, rd, un) in rets if not dg and not un}), "paths_passing_the_cursor_on": sum(1 for x in rets if x[2]), "unresolved": len(unk)})
+    ck.floor(R, "word_cursor_walkers", n, 2)
+
+
 def run(ck, facts, tier):
     rule_state_borrow(ck, facts)
     rule_word_cursor(ck, facts)
+    rule_word_advance(ck, facts)
+    if "mimium_rust_template" in facts.files:
+        from ..rules import saverestore
+
+        saverestore.run(ck, facts, "C18.prims", "mimium_rust_template", floor=1, why="the generated program finds a function's state cells through `current_function_state`; the VM's equivalent is the call frame")
     if "mimium_rust_template" in facts.files:
         from ..rules import nullanswer
 
